@@ -757,7 +757,7 @@ class History:
                         if not sc["chandle"] or (3000 + c) not in snap["ready"]:
                             self.v("C03", f"step {i}: scope {c} is cancelled and task {t} (state {tk['state']}) is inside it with no shield in between, but no delivery callback is scheduled")
                             if c in self._failed_group_scopes:
-                                self.v("C02", f"step {i}: a child of the group with scope {c} failed, but task {t} inside that scope is not being cancelled (no delivery scheduled)")
+                                self.v("C02", f"step {i}: a child or the body of the group with scope {c} failed, but task {t} inside that scope is not being cancelled (no delivery scheduled)")
                             if t in self._via_start:
                                 self.v("C07", f"step {i}: task {t} was started with start() into a group whose scope chain shows the cancelled scope {c}, but nothing is cancelling it: it is not treated as an ordinary member of the group")
                     break
